@@ -2976,6 +2976,12 @@ class WorkflowGraph(object):
                 raise ValueError("Placeholder \"%s\" is contained in at least 2 DoWhile documents: "
                                  "\"%s\" and \"%s\"" % (p_ref, old_doc_name, new_doc_name))
 
+            # VV: Discover matching components and remove them from list of looped-ids, because a comp-id can
+            #     only be matched by one placeholder-id (also for the placeholders which are skipped below, otherwise
+            #     their instances are reported as not matching any placeholder)
+            matched_components = set([comp_id for comp_id in remaining_looped_ids if looped_id_match_placeholder_id(comp_id, p_id)])
+            remaining_looped_ids.difference_update(matched_components)
+
             # VV: Finished/Shutdown/Failed placeholders do not need to be updated, as they're already done
             last_state = self._placeholders.get(p_ref, {}).get('state', experiment.model.codes.RUNNING_STATE)
 
@@ -2987,10 +2993,6 @@ class WorkflowGraph(object):
             else:
                 self.log.info("Updating state of placeholder %s" % p_ref)
 
-            # VV: Discover matching components and remove them from list of looped-ids, because a comp-id can
-            #     only be matched by one placeholder-id
-            matched_components = set([comp_id for comp_id in remaining_looped_ids if looped_id_match_placeholder_id(comp_id, p_id)])
-            remaining_looped_ids.difference_update(matched_components)
             matched_refs = ['stage%d.%s' % c_id for c_id in matched_components]
 
             latest = sorted(
